@@ -16,7 +16,7 @@ func init() { register("C10", propC10) }
 func propC10() *Property {
 	return &Property{
 		ID:      "C10",
-		Decides: "the process has no recover(), so every panic is fatal; decided: R10.1a every error that can reach the stream event loop's error-type panics is a typed error (WrapErrorWithType with a known constant) or forwarded from a function for which that holds; R10.1b the dynamic type of a segment's metadata is a function of its protocol byte (two implementers, constant family-consistent protocol in every constructor, Unmarshal stores only a protocol of its own family, metadata never nil) and every unchecked type assertion on metadata is reachable only for protocols of the asserted family (constant propagation over the 16 protocol numbers, through callers); R10.1c only session/data segments are inserted into a segment tree; R10.1d a mismatch between the user of a session's cipher and the user of the cipher that decrypted a segment never leads to a panic; R10.1e inventory: every explicit panic in the network-facing packages is classified in a table confirmed by reading (constructor/configuration misuse with constant arguments verified by folding, internal invariants with the rule that maintains them) — an unclassified panic site fails the check; R10.4 no arithmetic is performed on a narrow unsigned value read from a packet before it is widened (wrap-around then slice).; R10.5 narrow-typed arithmetic on a parsed metadata length field is covered by an unconditional parse-time bound; R10.6 reader contract: every Read/ReadFrom implementation returns a count within len(p)",
+		Decides: "the process has no recover(), so every panic is fatal; decided: R10.1a every error that can reach the stream event loop's error-type panics is a typed error (WrapErrorWithType with a known constant) or forwarded from a function for which that holds; R10.1b the dynamic type of a segment's metadata is a function of its protocol byte (two implementers, constant family-consistent protocol in every constructor, Unmarshal stores only a protocol of its own family, metadata never nil) and every unchecked type assertion on metadata is reachable only for protocols of the asserted family (constant propagation over the 16 protocol numbers, through callers); R10.1c only session/data segments are inserted into a segment tree; R10.1d a mismatch between the user of a session's cipher and the user of the cipher that decrypted a segment never leads to a panic; R10.1e inventory: every explicit panic in the network-facing packages is classified in a table confirmed by reading (constructor/configuration misuse with constant arguments verified by folding, internal invariants with the rule that maintains them) — an unclassified panic site fails the check; R10.4 no arithmetic is performed on a narrow unsigned value read from a packet before it is widened (wrap-around then slice).; R10.5 narrow-typed arithmetic on a parsed metadata length field is covered by an unconditional parse-time bound; R10.6 reader contract: every Read/ReadFrom implementation returns a count within len(p); R10.7 user names are filtered by byte length against MaxUserNameLen where the registry is built, the very measure under which the cipher's hint functions panic; R10.8 every sync/atomic.Value receives values whose statically determinable dynamic types agree",
 		NotDecided: "run-time panics without an explicit panic statement other than the narrow-arithmetic pattern: nil dereferences, slice bounds in general, division by zero, atomic.Value type mismatches (F9: not demonstrable on production paths, not armed), resource exhaustion, panics inside the standard library and protobuf.",
 		Rules: []Rule{
 			{ID: "R10.1a", Floor: 15, Text: "StreamUnderlay.readOneSegment/readSessionSegment/readDataAckSegment return only nil, WrapErrorWithType(_, T) with T in {PROTOCOL,NETWORK,CRYPTO,REPLAY}, or an error forwarded from one of these functions", Run: r10_1a},
@@ -27,6 +27,8 @@ func propC10() *Property {
 			{ID: "R10.4", Floor: 3, Text: "no +,*,<< on uint8/uint16 operands loaded from a byte slice before conversion to a wider integer (length octets must be widened first)", Run: r10_4},
 			{ID: "R10.5", Floor: 1, Text: "narrow-typed arithmetic on a parsed metadata length field is covered by an unconditional parse-time bound", Run: r10_5},
 			{ID: "R10.6", Floor: 10, Text: "reader contract: every Read/ReadFrom implementation returns a count within len(p)", Run: r10_6},
+			{ID: "R10.7", Floor: 1, Text: "the registry refuses user names by the measure the cipher panics on (byte length > MaxUserNameLen)", Run: r10_7},
+			{ID: "R10.8", Floor: 2, Text: "stores into one sync/atomic.Value have agreeing (determinable) dynamic types", Run: r10_8},
 		},
 	}
 }
@@ -1157,5 +1159,220 @@ func r10_6(c *RC) {
 				c.Bad(key, r.Pos(), "%s can return a count larger than len(p): %s; the caller slices its buffer with that count and panics", fnName(fn), why)
 			}
 		})
+	}
+}
+
+// r10_7: the user-name length precondition. cipher.CheckUserFromHint and
+// addUserHintToNonce panic when len(name) - the number of BYTES - exceeds
+// MaxUserNameLen, and CheckUserFromHint runs on every unauthenticated first
+// segment for every registered user. The registry therefore has to refuse
+// such names with the same measure: in buildState (or a helper it calls) the
+// builtin len of the name is compared with that constant. A count of runes
+// lets a 22-character CJK name through and every stray connection then kills
+// the server (seed C10e).
+func r10_7(c *RC) {
+	p := c.P
+	bs := p.Fn("pkg/protocol/serveruser", "buildState")
+	if bs == nil {
+		c.Anchor("serveruser.buildState")
+		return
+	}
+	maxK, ok := constOf(p, "apis/constant", "MaxUserNameLen")
+	if !ok {
+		c.Anchor("apis/constant.MaxUserNameLen")
+		return
+	}
+	isByteLen := func(v ssa.Value) bool {
+		cl, ok := v.(*ssa.Call)
+		if !ok {
+			return false
+		}
+		b, ok := cl.Call.Value.(*ssa.Builtin)
+		if !ok || b.Name() != "len" {
+			return false
+		}
+		bt, ok := cl.Call.Args[0].Type().Underlying().(*types.Basic)
+		return ok && bt.Info()&types.IsString != 0
+	}
+	isMax := func(v ssa.Value) bool { k, ok := constInt(v); return ok && k == maxK }
+	found := false
+	var wrong []string
+	seen := map[*ssa.Function]bool{}
+	var visit func(fn *ssa.Function, d int)
+	visit = func(fn *ssa.Function, d int) {
+		if fn == nil || fn.Blocks == nil || seen[fn] || d > 2 {
+			return
+		}
+		seen[fn] = true
+		instrs(fn, func(_ *ssa.BasicBlock, _ int, in ssa.Instruction) {
+			switch x := in.(type) {
+			case *ssa.BinOp:
+				if cmpForm(x, token.GTR, isByteLen, isMax) || cmpForm(x, token.LEQ, isByteLen, isMax) {
+					found = true
+				} else if cmpForm(x, token.GTR, nil, isMax) || cmpForm(x, token.LEQ, nil, isMax) || cmpForm(x, token.GEQ, nil, isMax) || cmpForm(x, token.LSS, nil, isMax) {
+					other := x.X
+					if isMax(other) {
+						other = x.Y
+					}
+					wrong = append(wrong, describe(other))
+				}
+			case *ssa.Call:
+				if sc := x.Call.StaticCallee(); sc != nil && sc.Pkg != nil && sc.Pkg.Pkg != nil && inProduct(sc.Pkg.Pkg.Path()) {
+					visit(sc, d+1)
+				}
+			}
+		})
+	}
+	visit(bs, 0)
+	// the panic exists at all (otherwise there is nothing to protect)
+	pn := 0
+	for _, name := range []string{"CheckUserFromHint", "addUserHintToNonce"} {
+		if f := p.Fn("pkg/cipher", name); f != nil {
+			instrs(f, func(_ *ssa.BasicBlock, _ int, in ssa.Instruction) {
+				if _, ok := in.(*ssa.Panic); ok && in.Pos().IsValid() {
+					pn++
+				}
+			})
+		}
+	}
+	c.Info("user_name_length_panics", pn)
+	switch {
+	case pn == 0:
+		c.OK("user-name-length-filter", bs.Pos(), "the cipher no longer panics on long user names")
+	case found:
+		c.OKH("user-name-length-filter", bs.Pos(), "buildState refuses names whose byte length exceeds MaxUserNameLen (%d), the measure the %d panics in pkg/cipher use", maxK, pn)
+	default:
+		c.Bad("user-name-length-filter", bs.Pos(), "buildState does not compare the byte length of a user name with MaxUserNameLen (it compares %v): a name within the limit by that measure but longer than %d bytes reaches cipher.CheckUserFromHint, which panics, on every unauthenticated first segment", wrong, maxK)
+	}
+}
+
+// r10_8: sync/atomic.Value panics when a Store's dynamic type differs from
+// the first stored value's. For every atomic.Value in the product the
+// dynamic types that can be determined (errors.New and fmt.Errorf without %w
+// give *errors.errorString, fmt.Errorf with %w gives *fmt.wrapError, a
+// concrete value gives its own type; through local helpers) must agree.
+// Values whose dynamic type cannot be determined statically are listed in the
+// evidence and not judged.
+func r10_8(c *RC) {
+	p := c.P
+	type site struct {
+		fn  *ssa.Function
+		in  ssa.Instruction
+		val ssa.Value
+	}
+	groups := map[ssa.Value][]site{}
+	var order []ssa.Value
+	for _, fn := range p.Funcs("pkg/socks5", "pkg/protocol", "apis", "pkg/appctl", "pkg/cipher", "pkg/common") {
+		instrs(fn, func(_ *ssa.BasicBlock, _ int, in ssa.Instruction) {
+			cl, ok := in.(ssa.CallInstruction)
+			if !ok || calleeID(cl) != "(*sync/atomic.Value).Store" {
+				return
+			}
+			root := cl.Common().Args[0]
+			// closures reach the variable through a free variable: use the binding
+			if fv, ok := root.(*ssa.FreeVar); ok {
+				par := fn.Parent()
+				for i, f := range fn.FreeVars {
+					if f == fv && par != nil {
+						instrs(par, func(_ *ssa.BasicBlock, _ int, y ssa.Instruction) {
+							if mc, ok := y.(*ssa.MakeClosure); ok && mc.Fn == fn && i < len(mc.Bindings) {
+								root = mc.Bindings[i]
+							}
+						})
+					}
+				}
+			}
+			if _, seen := groups[root]; !seen {
+				order = append(order, root)
+			}
+			groups[root] = append(groups[root], site{fn, in, cl.Common().Args[1]})
+		})
+	}
+	dynType := func(fn *ssa.Function, v ssa.Value) []string {
+		var out []string
+		for _, l := range LeavesX(p, fn, v, 0) {
+			switch x := l.(type) {
+			case *ssa.MakeInterface:
+				out = append(out, x.X.Type().String())
+			case *ssa.Call:
+				switch calleeID(x) {
+				case "errors.New":
+					out = append(out, "*errors.errorString")
+				case "fmt.Errorf":
+					if k, ok := x.Call.Args[0].(*ssa.Const); ok && k.Value != nil {
+						if strings.Contains(k.Value.ExactString(), "%w") {
+							out = append(out, "*fmt.wrapError")
+						} else {
+							out = append(out, "*errors.errorString")
+						}
+					} else {
+						out = append(out, "?")
+					}
+				default:
+					out = append(out, "?")
+				}
+			case *ssa.UnOp:
+				// a package-level error variable: its dynamic type is that of its initialiser
+				t := "?"
+				if g, ok := x.X.(*ssa.Global); ok && g.Pkg != nil {
+					if init := g.Pkg.Func("init"); init != nil {
+						instrs(init, func(_ *ssa.BasicBlock, _ int, y ssa.Instruction) {
+							st, ok := y.(*ssa.Store)
+							if !ok || st.Addr != ssa.Value(g) {
+								return
+							}
+							for _, il := range Leaves(st.Val, nil) {
+								if ic, ok := il.(*ssa.Call); ok {
+									switch calleeID(ic) {
+									case "errors.New":
+										t = "*errors.errorString"
+									case "fmt.Errorf":
+										if k, ok := ic.Call.Args[0].(*ssa.Const); ok && k.Value != nil && !strings.Contains(k.Value.ExactString(), "%w") {
+											t = "*errors.errorString"
+										}
+									}
+								}
+							}
+						})
+					}
+				}
+				out = append(out, t)
+			default:
+				if isNilConst(l) {
+					continue
+				}
+				out = append(out, "?")
+			}
+		}
+		return out
+	}
+	if len(order) == 0 {
+		c.OK("atomic-value-types", token.NoPos, "no atomic.Value.Store in scope")
+		return
+	}
+	for _, root := range order {
+		sites := groups[root]
+		known := map[string]ssa.Instruction{}
+		unknown := 0
+		for _, s := range sites {
+			for _, t := range dynType(s.fn, s.val) {
+				if t == "?" {
+					unknown++
+				} else if _, has := known[t]; !has {
+					known[t] = s.in
+				}
+			}
+		}
+		key := "atomic-value-types@" + fnName(outermost(sites[0].fn))
+		var ts []string
+		for t := range known {
+			ts = append(ts, t)
+		}
+		sort.Strings(ts)
+		if len(ts) > 1 {
+			c.Bad(key, known[ts[len(ts)-1]].Pos(), "values of different dynamic types (%s) are stored into one sync/atomic.Value: the second kind of Store panics ('store of inconsistently typed value'), in a goroutine nobody recovers from", strings.Join(ts, ", "))
+		} else {
+			c.OK(key, sites[0].in.Pos(), "%d stores; determinable dynamic types %v agree (%d values not determinable statically)", len(sites), ts, unknown)
+		}
 	}
 }
